@@ -1,0 +1,30 @@
+//go:build verif
+
+package rhp
+
+import (
+	rhp2 "go.sia.tech/core/rhp/v2"
+	"go.sia.tech/core/types"
+)
+
+// Verification hooks (property C16): re-export the unexported Merkle helpers.
+
+// VerifSectorAccumulator wraps this package's copy of sectorAccumulator.
+type VerifSectorAccumulator struct{ sa sectorAccumulator }
+
+// Reset calls sectorAccumulator.reset.
+func (v *VerifSectorAccumulator) Reset() { v.sa.reset() }
+
+// AppendNode calls sectorAccumulator.appendNode.
+func (v *VerifSectorAccumulator) AppendNode(h types.Hash256) { v.sa.appendNode(h) }
+
+// AppendLeaves calls sectorAccumulator.appendLeaves.
+func (v *VerifSectorAccumulator) AppendLeaves(leaves []byte) { v.sa.appendLeaves(leaves) }
+
+// Root calls sectorAccumulator.root.
+func (v *VerifSectorAccumulator) Root() types.Hash256 { return v.sa.root() }
+
+// VerifConvertFreeActions calls convertFreeActions.
+func VerifConvertFreeActions(freed []uint64, numSectors uint64) []rhp2.RPCWriteAction {
+	return convertFreeActions(freed, numSectors)
+}
